@@ -8,6 +8,7 @@ Require Import Urcu.Defer.DeferRun.
 Require Import Urcu.Gen.Generated.
 Require Import Urcu.Defer.DeferWrap.
 Require Import Urcu.Defer.DeferGp.
+Require Import Urcu.Defer.DeferLock.
 Import ListNotations.
 
 (* decode (encode l) = l for every list of (function, argument) bit patterns and every initial last-function value *)
@@ -87,7 +88,7 @@ Print Assumptions C13_counters_wrap.
 
 (* abstract barrier algorithm (snapshot of the heads, grace period, drain of exactly the snapshotted calls; one barrier at a time; any number of queuing threads and readers, calls queued while the grace period is in flight): a call that is about to be run was queued before every read-side section that is still open began *)
 Theorem C13_call_after_grace_period_all_runs :
-    forall s : st,
+    forall s : DeferGp.st,
     reach false s ->
     forall (k : nat) (snap : nat -> nat) (t c : nat) (rest : list nat),
     bph s = B_Drain k snap ->
@@ -97,17 +98,31 @@ Print Assumptions C13_call_after_grace_period_all_runs.
 
 (* what a thread queued = what was run (in order) followed by what is pending: nothing lost, duplicated or reordered by barriers *)
 Theorem C13_conservation :
-    forall (s : st) (t : nat), Inv s -> dall s t = ddone s t ++ dq s t.
+    forall (s : DeferGp.st) (t : nat), DeferGp.Inv s -> dall s t = ddone s t ++ dq s t.
 Proof. exact (@Urcu.Defer.DeferGp.defer_conservation). Qed.
 Print Assumptions C13_conservation.
 
 (* the variant that drains up to the head re-read after the grace period runs a call while a section that began before it was queued is still open (five-step run) *)
 Theorem C13_fresh_head_refuted :
-    exists (s : st) (t c : nat) (rest : list nat) (r b k : nat) (snap : nat -> nat),
+    exists (s : DeferGp.st) (t c : nat) (rest : list nat) (r b k : nat) (snap : nat -> nat),
     reach true s /\
     bph s = B_Drain k snap /\
     dq s t = c :: rest /\
-    sect s r = Some b /\ b < stamp s c /\ (exists s' : st, step true s (BRun t) s').
+    sect s r = Some b /\ b < stamp s c /\ (exists s' : DeferGp.st, DeferGp.step true s (BRun t) s').
 Proof. exact (@Urcu.Defer.DeferGp.defer_fresh_head_refuted). Qed.
 Print Assumptions C13_fresh_head_refuted.
+
+(* one queue drained by any number of parties (reclaimer, rcu_defer_barrier callers, the owner's full-queue and final flushes) under rcu_defer_mutex while the owner keeps appending: for every schedule the log of invocations is a prefix of the queued calls (each call at most once, in order), and with the mutex free it is exactly the calls below the published tail *)
+Theorem C13_drains_exactly_once_in_order_under_mutex :
+    forall cs : list choice,
+    let s := run true cs init in
+    (exists n : nat, ran s = firstn n (calls s)) /\ (lock s = None -> ran s = firstn (tail s) (calls s)).
+Proof. exact (@Urcu.Defer.DeferLock.defer_exactly_once_in_order). Qed.
+Print Assumptions C13_drains_exactly_once_in_order_under_mutex.
+
+(* without the mutex two drains of the same range overlap and a call is made twice (witness) *)
+Theorem C13_unlocked_drain_refuted :
+    exists cs : list choice, ran (run false cs init) = [7; 7].
+Proof. exact (@Urcu.Defer.DeferLock.unlocked_drain_refuted). Qed.
+Print Assumptions C13_unlocked_drain_refuted.
 
